@@ -3650,6 +3650,10 @@ CK_RV SoftHSM::C_DigestInit(CK_SESSION_HANDLE hSession, CK_MECHANISM_PTR pMechan
 	// Check if we have another operation
 	if (session->getOpType() != SESSION_OP_NONE) return CKR_OPERATION_ACTIVE;
 
+	// Check if the mechanism is enabled in the configuration (slots.mechanisms)
+	if (std::find(supportedMechanisms.begin(), supportedMechanisms.end(), pMechanism->mechanism) == supportedMechanisms.end())
+		return CKR_MECHANISM_INVALID;
+
 	// Get the mechanism
 	HashAlgo::Type algo = HashAlgo::Unknown;
 	switch(pMechanism->mechanism) {
@@ -5907,6 +5911,10 @@ CK_RV SoftHSM::C_GenerateKey(CK_SESSION_HANDLE hSession, CK_MECHANISM_PTR pMecha
 	Session* session = (Session*)handleManager->getSession(hSession);
 	if (session == NULL) return CKR_SESSION_HANDLE_INVALID;
 
+	// Check if the mechanism is enabled in the configuration (slots.mechanisms)
+	if (std::find(supportedMechanisms.begin(), supportedMechanisms.end(), pMechanism->mechanism) == supportedMechanisms.end())
+		return CKR_MECHANISM_INVALID;
+
 	// Check the mechanism, only accept DSA and DH parameters
 	// and symmetric ciphers
 	CK_OBJECT_CLASS objClass;
@@ -6060,6 +6068,10 @@ CK_RV SoftHSM::C_GenerateKeyPair
 	// Get the session
 	Session* session = (Session*)handleManager->getSession(hSession);
 	if (session == NULL) return CKR_SESSION_HANDLE_INVALID;
+
+	// Check if the mechanism is enabled in the configuration (slots.mechanisms)
+	if (std::find(supportedMechanisms.begin(), supportedMechanisms.end(), pMechanism->mechanism) == supportedMechanisms.end())
+		return CKR_MECHANISM_INVALID;
 
 	// Check the mechanism, only accept RSA, DSA, EC and DH key pair generation.
 	CK_KEY_TYPE keyType;
